@@ -68,7 +68,11 @@ def done_flag(ck, P):
             tys.append(arm_of(bi))
     bad = [a for a in tys if a in ("Flags", "Time", "Os", "ExLen", "Extra", "Name", "Comment")]
     ck.decide(not bad and "HCrc" in tys, R, "Type-via-HCrc", "block decoding starts from the gzip header only through HCrc", "Mode::Type is entered directly from header arm(s) %s" % bad, where(fn))
-    # length reset between fields
+    length_reset(ck, fn, regs, R)
+
+
+def length_reset(ck, fn, regs, R="MODE/header-done"):
+    """`length` doubles as 'bytes of this field already captured': it must be zero when Name and Comment start"""
     for arm in ("Extra", "Name"):
         reg = regs.get(arm, set())
         z = [bi for bi, fp, root, rv, s in fn.field_writes() if bi in reg and fp[-1:] == ("length",) and atoms.cval(rv) == 0]
@@ -78,6 +82,9 @@ def done_flag(ck, P):
         leak = flow.reaches_avoiding(fn, entry, exits, cut_blocks=z, cut_blocks_extra=None) if False else flow.reaches_avoiding(fn, entry, exits, cut_blocks=z)
         ck.decide(bool(z) and bool(exits) and not leak, R, "length=0@" + arm, "length reset before the next field",
                   "arm %s can hand over to %s without resetting `length`: the next field's capture offset starts wrong" % (arm, nxt), where(fn))
+
+
+def absent_and_get_header(ck, P, fn, regs, R="MODE/header-done"):
     # absent fields store NULL
     for arm, ptrf in (("ExLen", "extra"), ("Name", "name"), ("Comment", "comment")):
         reg = regs.get(arm, set())
@@ -206,6 +213,10 @@ def run(ck):
     ck.configs.add("K1")
     c02.header_capture(ck, P, "GUARD/header-capture")
     done_flag(ck, P)
+    fn = P.fn(D)
+    regs = decoders.mode_regions(fn, 20) if fn else None
+    if fn and regs:
+        absent_and_get_header(ck, P, fn, regs)
     flag_bits(ck, P)
     resume_from_gzindex(ck, P)
     ck.assumptions += ["rustc MIR", "arm regions", "host target; K1"]
